@@ -31,22 +31,32 @@ static inline void vstream__read(struct vstream *s, char *p, size_t n) {
   memcpy(p, s->buf + s->pos, n);
   s->pos += n;
 }
-/* array payloads are copied byte by byte: CBMC's memcpy with a symbolic length into a symbolic-size object is
- * imprecise (spurious counterexamples were observed), a loop is exact and is bounded by the obligation's unwind */
+/* array payloads: with -DVSTREAM_LOOP_COPY they are copied byte by byte.  CBMC's memcpy with a symbolic length into a
+ * symbolic-size object is imprecise (it over-approximates: spurious counterexamples were observed, never spurious
+ * passes); a loop is exact and is bounded by the obligation's unwind.  Units whose payload lengths are constants after
+ * propagation use memcpy (fast and exact there). */
 static inline void vstream__write_n(struct vstream *s, const char *p, size_t n) {
 #ifdef VSTREAM_WRITE_CONTRACT
   vstream__write(s, p, n);
 #else
   __CPROVER_assert(s->pos + n <= s->cap, "stream shim: write fits the buffer provided by the harness");
   __CPROVER_assume(s->pos + n <= s->cap);
+#ifdef VSTREAM_LOOP_COPY
   for (size_t i = 0; i < n; i++) s->buf[s->pos + i] = (uchar)p[i];
+#else
+  memcpy(s->buf + s->pos, p, n);   /* exact when n is a constant after propagation (payload lengths enumerated by the driver) */
+#endif
   s->pos += n;
 #endif
 }
 static inline void vstream__read_n(struct vstream *s, char *p, size_t n) {
   __CPROVER_assert(s->pos + n <= s->cap, "stream shim: read stays inside the image");
   __CPROVER_assume(s->pos + n <= s->cap);
+#ifdef VSTREAM_LOOP_COPY
   for (size_t i = 0; i < n; i++) p[i] = (char)s->buf[s->pos + i];
+#else
+  memcpy(p, s->buf + s->pos, n);
+#endif
   s->pos += n;
 }
 static inline bool vstream__good(struct vstream *s) { (void)s; return true; }
